@@ -20,7 +20,7 @@ MODEL_CRATES = ['async-std', 'async-process', 'notify', 'async-ctrlc', 'jemalloc
 
 def _src_hash(repo):
     h = hashlib.sha256()
-    for base in (os.path.join(repo, 'src'), MODELS):
+    for base in (os.path.join(repo, 'src'), MODELS, os.path.join(VERIF, 'replay')):
         for d, dirs, fs in sorted(os.walk(base)):
             dirs[:] = sorted(x for x in dirs if x != 'target')
             for f in sorted(fs):
@@ -68,6 +68,24 @@ def _gen_cargo_toml(repo):
     return '\n'.join(out) + '\n'
 
 
+def _add_local_harness(scratch):
+    """Scratch copy only: append the single-actor harness module to engine/mod.rs and an early exit to it in main().
+    (add-only in engine/mod.rs; in main.rs one line is inserted after the opening brace of `fn main`). If the shape of
+    main() is not recognised the harness is simply absent and LOCAL counterexamples cannot be replayed (inconclusive)."""
+    em = os.path.join(scratch, 'src', 'engine', 'mod.rs')
+    mm = os.path.join(scratch, 'src', 'main.rs')
+    if not (os.path.exists(em) and os.path.exists(mm)):
+        return False
+    main = open(mm).read()
+    m = re.search(r'fn main\(\)\s*->\s*Result<\(\)>\s*\{', main)
+    if not m:
+        return False
+    main = main[:m.end()] + '\n    #[cfg(zx)]\n    if std::env::var_os("ZX_LOCAL").is_some() { return engine::zx_local::run(); }\n' + main[m.end():]
+    open(mm, 'w').write(main)
+    open(em, 'a').write('\n#[cfg(zx)]\n#[path = "%s"]\npub mod zx_local;\n' % os.path.join(VERIF, 'replay', 'local_harness.rs'))
+    return True
+
+
 def build_native(repo='/repo', log=None):
     """Returns (binary path, info dict). Rebuilds when the sources changed."""
     t0 = time.time()
@@ -82,7 +100,8 @@ def build_native(repo='/repo', log=None):
     scratch = tempfile.mkdtemp(prefix='zx-native-', dir=scratch_root)
     try:
         shutil.copytree(os.path.join(repo, 'src'), os.path.join(scratch, 'src'))
-        open(os.path.join(scratch, 'Cargo.toml'), 'w').write(_gen_cargo_toml(repo))
+        open(os.path.join(scratch, 'Cargo.toml'), 'w').write(_gen_cargo_toml(repo).replace('[dependencies]', '[dependencies]\nzx-rt = { path = "%s" }' % os.path.join(MODELS, 'zx-rt'), 1))
+        _add_local_harness(scratch)
         # start from the repository's lock file so that the real crates keep their pinned versions
         shutil.copy(os.path.join(repo, 'Cargo.lock'), os.path.join(scratch, 'Cargo.lock'))
         env = dict(os.environ, CARGO_NET_OFFLINE='true', CARGO_TARGET_DIR=os.path.join(CACHE, 'native-target'), RUSTFLAGS='--cfg zx -Awarnings')
